@@ -7,7 +7,7 @@ from fractions import Fraction
 
 from pv import ctx
 from pv.gen import domains as G
-from pv.harness import build_objects, lib_objects, parse_domain
+from pv.harness import build_objects, build_state, lib_objects, parse_domain, unjstate
 from pv.lib import lib_call
 from pv.props import sem_common as S
 from pv.ref import pddl, sexpr
@@ -152,11 +152,20 @@ def check_case(case):
         ptype = {p: t for p, t in a["params"]}
         info = {"action": a, "args": args}
         with_objs = (n % 2 == 0)
+        use_first = (n % 3 == 2)
         n += 1
 
         def run():
             op = Operator(domain.actions[a["name"]], domain, list(args), objs if with_objs else None)
             op.ground()
+            if use_first:
+                # the operator is used before its grounding is read: what it reports must still be the substituted schema
+                state = build_state(domain, world, unjstate(pr["state"]))
+                try:
+                    op.is_applicable(state)
+                    op.is_applicable(state)
+                except Exception:  # noqa: the query's own failures are C02's business
+                    pass
             pre = lib_leaves(op.grounded_preconditions)
             groups = []
             for ge in op.grounded_effects:
@@ -171,12 +180,32 @@ def check_case(case):
                     cl, cn = ssort(l), ssort(m)
                     typed += t2
                 groups.append(((cl, cn, adds, dels, nums), typed))
-            return pre, groups, op.typed_action_call, str(op)
+            # every function object hanging in the grounded trees, read with its multiplicities (the way a state prints it)
+            from pddl_plus_parser.models import NumericalExpressionTree, PDDLFunction
+            trees = [c[1] if isinstance(c, tuple) else c for c in op.grounded_preconditions]
+            for ge in op.grounded_effects:
+                trees += list(ge.grounded_numeric_effects) + ([c[1] if isinstance(c, tuple) else c for c in ge.grounded_antecedents]
+                                                              if ge.grounded_antecedents is not None else [])
+            fterms = set()
+            for tr in trees:
+                if isinstance(tr, NumericalExpressionTree):
+                    for node in tr:
+                        if node.is_leaf and isinstance(node.value, PDDLFunction):
+                            fterms.add(tuple(sexpr.read(node.value.state_representation)[1]))
+            return pre, groups, op.typed_action_call, str(op), fterms
         ok2, out = lib_call(run)
         if not ok2:
             res.bad(f"C20/ground/exception:{out.key}", {**info, "error": repr(out)})
             continue
-        (lits, nums, typed), groups, tcall, call_str = out
+        (lits, nums, typed), groups, tcall, call_str, fterms = out
+        # function terms of the grounded trees: each is a function term of the substituted schema (same arguments, same
+        # multiplicities); terms over quantified variables have no ground form and are not expected here
+        fnames = {n for n, _ in dom["functions"]}
+        exp_fterms = {tuple(x) for f in ([a["pre"]] if a["pre"] else []) + [a["eff"]] for x in pddl.walk(pddl.substitute(f, env))
+                      if x and isinstance(x[0], str) and x[0] in fnames and all(isinstance(tk, str) for tk in x[1:])}
+        stray = sorted(ft for ft in fterms if ft not in exp_fterms)
+        if stray:
+            res.bad("C20/function-term/not-in-the-substituted-schema", {**info, "stray": stray[:4], "expected": sorted(exp_fterms)[:8]})
         for k3 in (False, True):
             e_l, e_n = leaves_of(pddl.substitute(a["pre"], env) if a["pre"] else [], k3)
             pre_ok = ssort(e_l) == ssort(lits) and ssort(e_n) == ssort(nums)
@@ -257,7 +286,7 @@ def check_case(case):
 
 
 def gen(ch, tier):
-    ft = G.feats(max_actions=2, p_when=0.6)
+    ft = G.feats(max_actions=2, p_when=0.6, p_long_number=0.1, long_decimals=4)
     return S.gen_sem_case(ch, tier, ft, n_probes=5)
 
 
